@@ -91,7 +91,11 @@ class RuleSet(object):
 
         def absent2():
             raise SkipComponent("never there")
-        for f in (present, absent1, absent2):
+
+        def absent3():
+            raise SkipComponent("never there")
+        self.absent3 = absent3
+        for f in (present, absent1, absent2, absent3):
             f.__module__ = "verif_rules_%s_deps" % tag
             plugins.component()(f)
             self.comps.append(f)
@@ -172,7 +176,8 @@ class RuleSet(object):
         body.__module__ = self.mods[r["mod"]].__name__
         setattr(self.mods[r["mod"]], body.__name__, body)
         deps = {"met": [self.present], "missing": [self.absent1],
-                "missing-group": [self.present, [self.absent1, self.absent2]]}[r["dep"]]
+                "missing-group": [self.present, [self.absent1, self.absent2]],
+                "missing-both": [self.present, self.absent3, [self.absent1, self.absent2], [self.present, self.absent2]]}[r["dep"]]
         plugins.rule(*deps, tags=["t%d" % i, "common"], links={"kcs": ["https://example.test/%d" % i]})(body)
         if not r["enabled"]:
             dr.set_enabled(body, False)
@@ -190,11 +195,7 @@ class RuleSet(object):
         for i, r in enumerate(self.case["rules"]):
             f = self.rules[i + 1]
             d = dr.get_delegate(f)
-            dep = "met"
-            if self.absent1 in d.requires:
-                dep = "missing"
-            elif d.at_least_one:
-                dep = "missing-group"
+            dep = r["dep"]      # as declared
             out.append({"ret": r["ret"], "dep": dep, "enabled": bool(dr.is_enabled(f)), "key": r["key"],
                         "mod": r["mod"], "len": self.measured(i + 1, r)})
         return out
@@ -258,8 +259,9 @@ class RuleSet(object):
                     "h": head, "type": typ if isinstance(typ, str) else "?", "det": kind,
                     "keyok": entry.get("key") == wantkey and det.get(kn) == wantkey and det.get("type") == typ,
                     "compok": entry.get("component") == dr.get_name(f),
-                    "tagsok": sorted(entry.get("tags") or []) == sorted(dr.get_tags(f)),
-                    "linksok": (entry.get("links") or {}) == (dr.get_delegate(f).links or {}),
+                    # compared with what was DECLARED in the decorator, not with what dr now says
+                    "tagsok": sorted(entry.get("tags") or []) == sorted(["t%d" % i, "common"]),
+                    "linksok": (entry.get("links") or {}) == {"kcs": ["https://example.test/%d" % i]},
                     "idok": entry.get("%s_id" % typ) == "%s|%s" % (mod, wantkey)})
         for s in resp.get("skips", []) or []:
             i = names.get(s.get("rule_fqdn"), 0)
@@ -267,8 +269,8 @@ class RuleSet(object):
                 continue
             per[i]["skips"] += 1
             r = self.case["rules"][i - 1]
-            want_all = [dr.get_name(self.absent1)] if r["dep"] == "missing" else []
-            want_any = [[dr.get_name(self.absent1), dr.get_name(self.absent2)]] if r["dep"] == "missing-group" else []
+            want_all = {"missing": [dr.get_name(self.absent1)], "missing-both": [dr.get_name(self.absent3)]}.get(r["dep"], [])
+            want_any = [[dr.get_name(self.absent1), dr.get_name(self.absent2)]] if r["dep"] in ("missing-group", "missing-both") else []
             m = re.match(r"^All: (\[.*?\]) Any: ?(.*)$", s.get("details", ""))
             ok = bool(m) and s.get("reason") == "MISSING_REQUIREMENTS" and s.get("type") == "skip"
             if ok:
@@ -331,7 +333,7 @@ def run_case(case, which, limit, nonce):
                 if which == "single-incr":
                     ev.run_incremental(graph)
                 elif case.get("order") and which != "insights":
-                    order = [rs.present, rs.absent1, rs.absent2] + [rs.rules[i] for i in case["order"]]
+                    order = [rs.present, rs.absent1, rs.absent2, rs.absent3] + [rs.rules[i] for i in case["order"]]
                     dr.run_components(order, graph, broker)
                 else:
                     ev.run_serial(graph)
